@@ -914,6 +914,24 @@ def check_consts(ctx):
     return True
 
 
+def run_shared(ctx, hists, tag):
+    """the MP4 layout family of this module (moov first/last, media data on both sides of moov, 64-bit atom headers, the
+    orders of ilst and free inside meta, moof fragments, size-0 last atom) under the histories `hists(i)` of another
+    property, with this module's structural oracle after every step: the atom tree is well formed with consistent sizes,
+    every stco/co64/tfhd entry still addresses the same media bytes, the mdat payloads are unchanged and the file
+    reloads to the tags last saved.  C07 (re-save), C08 (delete) and C09 (padding kept) all state that the bytes that
+    are not tags stay where the file's own tables find them"""
+    lays = [l for l, _ in targeted()] + layouts(ctx)
+    n0 = ctx.evaluations
+    for li, lay in enumerate(lays):
+        data, expected = build(lay)
+        desc = lay.describe(); q = quirks_of(lay, data)
+        for ops in hists(li):
+            run_history(ctx, "%s-synth%d" % (tag, li), data, expected, ops, desc, q, None)
+    ctx.hist["mp4-layout-family:layouts"] += len(lays)
+    ctx.hist["mp4-layout-family:steps"] += ctx.evaluations - n0
+
+
 def run(ctx, thorough_histories=None):
     ctx.rule = RULE
     rng = ctx.rng
